@@ -200,6 +200,9 @@ def check(ctx):
     # run with sums to one (C08/R3: last write = division by the sum; first weights: C08/R5)
     share(ctx, 'C08', 'R5/C08.', ['R3.normalised', 'R5.', 'R6.'])
     share(ctx, 'C09', 'R5/C09.', ['R1.', 'R2.'])
+    # every coordinate of the hypercube must be sampled: one fresh canonical number per dimension
+    share(ctx, 'C10', 'R7/C10.', ['R1.draws_per_call'])
+    share(ctx, 'C17', 'R7/C17.', ['R4.unit_interval'])
     # MPI: the calls of an iteration are split over the ranks of the communicator that is reduced over
     share(ctx, 'C04', 'R6/C04.', ['R8.'])
 
